@@ -190,6 +190,23 @@ CHECKS = {
         note=NS_NOTE + " Standard sampler; the handler is invoked from a line trace hook (= between bytecodes, before a "
              "source line). Known findings mid_iteration_pickle:* identified by region and shape of the pickled state.",
     ),
+    "C03": dict(
+        category="model_checking",
+        technique="TLA+ spec ImportanceSampler.tla (proposal/column/count bookkeeping, stopping rule, checkpoint/resume) "
+                  "checked by TLC; every iteration, finalise and resume of real INS runs validated by TLC against "
+                  "TraceImportanceSampler.tla with the numeric equalities evaluated by an independent oracle",
+        text="TLC proves for all bounded histories (incl. kill/resume) that every stored row has one density column per "
+             "proposal and that the per-proposal counts add up to the stored samples (so weights counts/total sum to "
+             "one); in real runs the oracle re-evaluates the saved proposals at every stored sample of both stores "
+             "(float32 accuracy), recomputes the mixture density with weights = fraction of samples per proposal read "
+             "from the samples' own iteration labels, the log-weights, the unit-hypercube test and the model's "
+             "likelihood; TLC requires these booleans and the bookkeeping at every boundary, after finalise and after "
+             "every resume.",
+        design_ref="DESIGN.md 4 C03",
+        note="Numeric equalities are evaluated by vf/oracle_ins.py (float32 tolerance 2e-4 on flow log-densities, 1e-9 on "
+             "float64 quantities); the specification contributes the bookkeeping that makes them meaningful. Tiny flows, "
+             "2-4 parameter models, <=6 levels.",
+    ),
 }
 
 NOT_YET = {k: 'check not built yet (work in progress; see DESIGN.md 8 for the order of work)' for k in ['C01', 'C02', 'C03', 'C05', 'C09', 'C10', 'C11', 'C12', 'C13', 'C14', 'C15', 'C16', 'C17', 'C18', 'C19', 'C20']}
